@@ -187,8 +187,15 @@ EXTRA = {
  "C30": "three-copy agreement of %prec; Reference literals carry Model; kinds reaching ExprString",
 }
 
+CLAIMS.update({
+ "C26": ("dominance/loop-nesting/operand-role rules over util/graph: min-update idiom, sibling check of the two Tarjan implementations, SCC stack pairing, pivot position of Warshall's loops, matrix cell codec, edge direction of Transpose, in-progress sentinel of LongestPath",
+         "Decides structural necessary conditions of the four graph routines: every low-link update of Tarjan is a true running minimum and the post-descent update propagates lowLink[child]; a component is emitted exactly under lowLink[v]==index[v] and its members leave onStack before the stack is cut; Closure's intermediate vertex is the outermost loop variable and the update joins the two tested edges; AddEdge/HasEdge/Graph agree on the cell i*n+e; Transpose sizes and fills the list of the edge's target with its source; LongestPath marks in-progress vertices -1, flags a cycle exactly on meeting one and returns nil under the flag. It does not decide that the computed components, closure or path are correct on every graph.",
+         "Graphs are runtime values; order of components (reverse topological) and maximality of the longest path are algorithmic and not examined.",
+         "A.2 (C26)"),
+})
+
 NA = {
- "C26": "graph algorithms (SCC order, closure, transposition, longest path) are statements about values computed by loops over runtime graphs; util/graph has no encoding, guard, pairing or ownership clause whose violation is visible in the shape of the code — no sound static necessary condition within reach",
+ "C26_unused": "(now claimed) graph algorithms (SCC order, closure, transposition, longest path) are statements about values computed by loops over runtime graphs; util/graph has no encoding, guard, pairing or ownership clause whose violation is visible in the shape of the code — no sound static necessary condition within reach",
  "C27": "minimality of a Myers edit script and applicability of rendered hunks are numerical/round-trip properties of runtime data; no structural clause to check statically",
 }
 
